@@ -6,6 +6,9 @@ Line protocol (stateless; mirrors the `math` op of harness/py/c43_mjx.py, which 
   <fn> tok tok ...      a float token is the 16 hex digits of its IEEE bits
   -> result tokens in the same syntax (the hand-written model of `Model/MjxMath.lean` evaluated on `Float`);
      `bad-op` for an unknown function, a wrong number of arguments or a malformed token.
+  kbi_mjx rs ts sr0 sr1 d0 d1 width mid power pos   `_kbi` of mjx/_src/constraint.py -> k b imp
+  kbi_c   rs ts sr0 sr1 d0 d1 width mid power x0    K, B, I of efc_KBIP as engine_core_constraint.c computes them
+                                                    (rs = 1: REFSAFE active, 0: disabled; anything else: bad-op)
 -/
 open MjProof MjProof.Driver MjProof.MjxMath
 
@@ -30,6 +33,14 @@ def run (name : String) (x : List Float) : Option (List Float) :=
     let r := motionCrossForce a b c d e f g h i j k l; some [r.1, r.2.1, r.2.2.1, r.2.2.2.1, r.2.2.2.2.1, r.2.2.2.2.2]
   | "inert_mul", [a, b, c, d, e, f, g, h, i, j, k, l, m, n, o, p] =>
     let r := inertMul a b c d e f g h i j k l m n o p; some [r.1, r.2.1, r.2.2.1, r.2.2.2.1, r.2.2.2.2.1, r.2.2.2.2.2]
+  | "kbi_mjx", [rs, ts, a, b, c, d, e, f, g, x] =>
+    if rs == 0.0 || rs == 1.0 then
+      let r := mjxKbi Float.pow (rs == 1.0) ts a b c d e f g x; some [r.1, r.2.1, r.2.2]
+    else none
+  | "kbi_c", [rs, ts, a, b, c, d, e, f, g, x] =>
+    if rs == 0.0 || rs == 1.0 then
+      let r := cKbi Float.pow (rs == 1.0) ts a b c d e f g x; some [r.1, r.2.1, r.2.2]
+    else none
   | _, _ => none
 
 def step (line : String) : String :=
